@@ -27,6 +27,39 @@ add(
     "DESIGN.md section 4, C20",
 )
 
+add(
+    "C19",
+    "online alignment/read-back monitor on the hooked uni2tex (full code-point sweep + random strings + in-situ exports)",
+    "Every call of uni2tex made by the workload is judged online: totality, ASCII identity, every accent command aligned with the "
+    "accented character it replaces (precomposed or base+mark, nested allowed), read-back canonically equivalent. All 1 112 064 "
+    "non-surrogate code points are enumerated in 4 (quick) / 8 (thorough) contexts, plus seeded random strings and the label "
+    "texts of real TikZ exports. Held = on the calls observed.",
+    "Trusted: Python's unicodedata (same tables the code uses), the 15-accent table copied from the documentation into "
+    "oracles/texinv.py. Inputs containing backslash or braces are only judged for totality/ASCII identity.",
+    "DESIGN.md section 4, C19",
+)
+add(
+    "C17",
+    "online reference-calendar monitor on the hooked interval methods (enumerated day sweep + random + offset/range workloads)",
+    "Every floor/ceil/round/offset/range call on the seven calendar units (driver calls and the nested calls the library makes) is "
+    "compared online with an independent calendar built on datetime/timedelta/calendar. Every day of 1900-2199 at three instants "
+    "is enumerated for floor/ceil/round; every hour of five years; random ms instants incl. round() ties; offsets k=0..400 from "
+    "month-end/leap-day boundaries; ranges with steps 1..12. Held = on the calls observed.",
+    "Trusted: oracles/calendar.py and CPython's datetime. Process runs with TZ=UTC (zone independence is C18). Week ranges with "
+    "step>1 are judged as subsequences only.",
+    "DESIGN.md section 4, C17",
+)
+add(
+    "C18",
+    "offline comparison of call logs recorded by the real code in fresh processes under five TZ values",
+    "A seeded battery of calendar-interval, time-scale and SVG/TikZ export calls is executed by the real code in fresh processes "
+    "with TZ in {UTC, America/New_York, Asia/Kolkata, Australia/Lord_Howe, Pacific/Chatham}; one canonical line per API-boundary "
+    "call is logged and the five logs must be identical line by line. Instants are concentrated on the DST switch days of the "
+    "zones and on quarter-hour offsets. A sentinel proves each zone was in effect. Held = on the calls compared.",
+    "Trusted: the OS zoneinfo files and CPython's TZ handling; datetime.time inputs (combined with today's date) are excluded.",
+    "DESIGN.md section 4, C18",
+)
+
 NOT_YET = {}
 
 
